@@ -202,6 +202,14 @@ type GenOpt struct {
 	EmptyConts bool // allow empty maps / lists
 	Nulls      bool
 	Scalars    func(r *rand.Rand) interface{}
+	nodes      *int // containers generated so far (size budget, see Fresh)
+}
+
+// Fresh returns a copy of o with a new size budget: once ~2500 container members exist, containers stay small
+// (several wide levels nested in each other would otherwise produce 10^5-node values and multi-second cases).
+func (o GenOpt) Fresh() GenOpt {
+	o.nodes = new(int)
+	return o
 }
 
 var DefaultKeys = []string{"a", "b", "c", "k", "doc", "items", "sub", "list", "n0", "x"}
@@ -232,14 +240,24 @@ func (o GenOpt) scalar(r *rand.Rand) interface{} {
 }
 
 func (o GenOpt) fan(r *rand.Rand) int {
-	if o.WideProb > 0 && r.Intn(o.WideProb) == 0 {
-		return 33 + r.Intn(48)
+	over := o.nodes != nil && *o.nodes > 2500
+	n := 0
+	if o.WideProb > 0 && r.Intn(o.WideProb) == 0 && !over {
+		n = 33 + r.Intn(48)
+	} else {
+		lo := 1
+		if o.EmptyConts {
+			lo = 0
+		}
+		n = lo + r.Intn(o.MaxFan+1-lo)
+		if over && n > 1 {
+			n = 1
+		}
 	}
-	lo := 1
-	if o.EmptyConts {
-		lo = 0
+	if o.nodes != nil {
+		*o.nodes += n
 	}
-	return lo + r.Intn(o.MaxFan+1-lo)
+	return n
 }
 
 func (o GenOpt) Map(r *rand.Rand, depth int) M {
